@@ -168,8 +168,10 @@ def Batch.nack (b : Batch) (i : Nat) (errs : List (Option Err)) : R Batch := do
         let from_ := findSplitFrom b.pos p
         let to := findSplitTo b.pos (p+1) b.pos.length - 1
         for j in List.range' from_ (to + 1 - from_) do
-          let _ ← idx st j "recordStatuses"
-          st := st.set j { flag := .nack, err := e }
+          let sj ← idx st j "recordStatuses"
+          -- a filtered piece stays filtered (filterCount and the active indices stay exact)
+          if sj.flag != .filter then
+            st := st.set j { flag := .nack, err := e }
     k := k + 1
   pure { b with st := st, tainted := true }
 
